@@ -150,7 +150,7 @@ public:
         p.set_knob("bt1_en", bt1);
         p.set_knob("bt1_words", bt1 ? (s64)r.below(19) : 0);
         p.set_knob("busy", (s64)r.below(7));
-        p.set_knob("main", (s64)(r.chance(1, 8) ? 1 : r.chance(1, 5) ? 2 : r.chance(1, 6) ? 3 : r.chance(1, 12) ? 4 : 0));
+        p.set_knob("main", (s64)(r.chance(1, 8) ? 1 : r.chance(1, 5) ? 2 : r.chance(1, 6) ? 3 : r.chance(1, 12) ? 4 : r.chance(1, 5) ? 5 : r.chance(1, 8) ? 6 : 0));
         for (int h = 0; h < 4; ++h) {
             u16 act = 0;
             if (r.chance(1, 3))
